@@ -96,6 +96,12 @@ def gen(i, R, tier):
     if len(paths) >= 2 and rng.random() < 0.4:
         a, b = rng.sample([p for p in paths if not any(x.startswith(".") for x in p.split("/"))] or ["."], 1) + ["."]
         targets.append([a, b])
+    # several paths in one invocation, as a commit hook passes them: excluded, unsupported and
+    # ordinary files in any order
+    plain = [p for p in paths if not any(x.startswith(".") for x in p.split("/"))]
+    for _ in range(rng.randint(0, 2)):
+        if len(plain) >= 2:
+            targets.append(rng.sample(plain, min(len(plain), rng.randint(2, 4))))
     seen = set()
     for t in targets:
         key = tuple(t)
